@@ -66,7 +66,10 @@ def run(cmd, timeout=600, cwd=None, env=None, inp=None):
 
 def coqc(vfile: Path, timeout=600, extra=()):
     """compile one .v under a shell-level timeout; returns (rc, stdout, stderr, secs)"""
-    cmd = ["timeout", str(timeout), "coqc", *COQFLAGS, *extra, str(vfile)]
+    import shlex
+
+    inner = " ".join(shlex.quote(x) for x in ["timeout", str(timeout), "coqc", *COQFLAGS, *extra, str(vfile)])
+    cmd = ["bash", "-c", f"ulimit -s unlimited 2>/dev/null || ulimit -s 1000000 2>/dev/null; exec {inner}"]
     return run(cmd, timeout=timeout + 30, cwd=str(COQ))
 
 
